@@ -304,8 +304,8 @@ def explore(res: Result, dim, system, flavor, layer, depth, tier, graph, first_r
             before_sys, before_st = L.system_of(v)
             if ev[0] == "setc":
                 val = before_st[ev[2]]
-                if SYN.get(ev[1], ev[1]) == "rho" and val < 0:
-                    return False  # a negative rho is not a legitimate value to assign
+                if (SYN.get(ev[1], ev[1]) == "rho" and val < 0) or (ev[1] == "theta" and not (0 <= val <= 3.140625)):
+                    return False  # a negative rho or a polar angle outside [0, pi] is not a legitimate value to assign
                 ev = ("set", ev[1], val)
             exc = None
             try:
